@@ -467,14 +467,15 @@ def case_hash(case):
     return hashlib.sha1(json.dumps(case, sort_keys=True, default=str).encode()).hexdigest()
 
 
-def write_evidence(pid, tier, seed, coverage, assumptions, wall, violations):
-    os.makedirs(EVIDENCE_DIR, exist_ok=True)
+def write_evidence(pid, tier, seed, coverage, assumptions, wall, violations, directory=None):
+    directory = directory or EVIDENCE_DIR
+    os.makedirs(directory, exist_ok=True)
     ev = {
         "property_id": pid, "tier": tier, "seed": int(seed), "level": "proof",
         "coverage": coverage, "assumptions": assumptions, "wall_s": round(wall, 2),
         "violations": int(violations),
     }
-    path = os.path.join(EVIDENCE_DIR, pid + ".json")
+    path = os.path.join(directory, pid + ".json")
     tmp = path + ".tmp%d" % os.getpid()
     with open(tmp, "w") as f:
         json.dump(ev, f, indent=1, default=str)
